@@ -115,7 +115,7 @@ def run_case(rng, res, idx, tier):
 
 
 def plan(tier, seed):
-    n = tier_value(tier, 144, 2400)
+    n = tier_value(tier, 144, 5000)
     shards = tier_value(tier, 12, 14)
     per = n // shards
     return [dict(first=i * per, count=per, budget_s=tier_value(tier, 50, 560)) for i in range(shards)]
